@@ -81,10 +81,10 @@ Proof. intros v t1 t2 inc e H. unfold tf_merge. rewrite H. reflexivity. Qed.
 Lemma tf_merge_ok : forall v t1 t2 inc,
   f_err (tf_merge v t1 t2 inc) = None ->
   f_err t1 = None /\ f_err t2 = None /\ f_version t1 = f_version t2 /\ f_dotenv t2 = false /\
-  exists t1', tasks_merge_loop v inc (vars_merge (f_vars t1) (f_vars t2)) (f_tasks t2) (f_tasks t1) = Ok t1'
+  exists t1', tasks_merge_loop v inc (vars_merge_inc inc (f_vars t1) (f_vars t2)) (f_tasks t2) (f_tasks t1) = Ok t1'
               /\ f_tasks (tf_merge v t1 t2 inc) = default_alias inc (f_tasks t2) t1'
-              /\ f_vars (tf_merge v t1 t2 inc) = vars_merge (f_vars t1) (f_vars t2)
-              /\ f_env (tf_merge v t1 t2 inc) = vars_merge (f_env t1) (f_env t2).
+              /\ f_vars (tf_merge v t1 t2 inc) = vars_merge_inc inc (f_vars t1) (f_vars t2)
+              /\ f_env (tf_merge v t1 t2 inc) = vars_merge_inc inc (f_env t1) (f_env t2).
 Proof.
   intros v t1 t2 inc H. unfold tf_merge in *.
   destruct (f_err t1) eqn:E1; [congruence|].
@@ -92,7 +92,7 @@ Proof.
   destruct (negb (String.eqb (f_version t1) (f_version t2))) eqn:EV; [cbn in H; discriminate|].
   destruct (f_dotenv t2) eqn:ED; [cbn in H; discriminate|].
   unfold tasks_merge in *.
-  destruct (tasks_merge_loop v inc (vars_merge (f_vars t1) (f_vars t2)) (f_tasks t2) (f_tasks t1)) as [t1'|e] eqn:EL;
+  destruct (tasks_merge_loop v inc (vars_merge_inc inc (f_vars t1) (f_vars t2)) (f_tasks t2) (f_tasks t1)) as [t1'|e] eqn:EL;
     [|cbn in H; discriminate].
   apply negb_false_iff, String.eqb_eq in EV.
   repeat split; try reflexivity; try assumption.
@@ -167,8 +167,8 @@ Qed.
 Lemma tf_merge_brings : forall v t1 t2 inc k t,
   f_err (tf_merge v t1 t2 inc) = None -> table_ok t1 -> table_ok t2 ->
   lookup k (f_tasks t2) = Some t -> mem k (i_excludes inc) = false ->
-  exists t', lookup (fst (merge_task v inc (vars_merge (f_vars t1) (f_vars t2)) k t)) (f_tasks (tf_merge v t1 t2 inc)) = Some t'
-             /\ alias_ext (snd (merge_task v inc (vars_merge (f_vars t1) (f_vars t2)) k t)) t'.
+  exists t', lookup (fst (merge_task v inc (vars_merge_inc inc (f_vars t1) (f_vars t2)) k t)) (f_tasks (tf_merge v t1 t2 inc)) = Some t'
+             /\ alias_ext (snd (merge_task v inc (vars_merge_inc inc (f_vars t1) (f_vars t2)) k t)) t'.
 Proof.
   intros v t1 t2 inc k t E H1 H2 HL HX.
   destruct (tf_merge_ok v t1 t2 inc E) as (_&_&_&_&t1'&HLoop&HT&_).
@@ -176,6 +176,6 @@ Proof.
   pose proof (loop_ok_fresh _ _ _ _ _ _ HLoop H1) as HN'.
   apply loop_ok in HLoop. apply In_nodup_lookup; [exact HN'|].
   rewrite HLoop. apply in_app_iff. right.
-  set (pv := vars_merge (f_vars t1) (f_vars t2)).
+  set (pv := vars_merge_inc inc (f_vars t1) (f_vars t2)).
   rewrite <- surjective_pairing. apply lookup_merged_entries; assumption.
 Qed.
